@@ -62,6 +62,10 @@ def havoc(ex, entry, modL, modH, modG, tag, mutates=()):
             t = st.typeof(old)
             st.locals[name] = nv
             st.settype(nv, t)
+    objmut = {}
+    for m_ in mutates:
+        if isinstance(m_, tuple):
+            objmut.setdefault(m_[0], []).append(m_[1])
     for f in modH:
         hav = z3.Array("HL!%s!%s" % (f, tag), z3.IntSort(), z3.BoolSort() if f.startswith("?") else Val)
         if f in mutates:
@@ -69,7 +73,11 @@ def havoc(ex, entry, modL, modH, modG, tag, mutates=()):
         else:
             r = z3.Int("r!loop")
             base = entry.field_arr(f)
-            st.heap[f] = z3.Lambda([r], z3.If(r < entry.aptr, z3.Select(base, r), z3.Select(hav, r)))
+            keep = r < entry.aptr
+            for objfn in objmut.get(f, []):
+                # the loop may write this field of this one pre-existing object
+                keep = z3.And(keep, r != Val.ref(objfn(LoopCtx(ex, entry, entry, None, None, None))))
+            st.heap[f] = z3.Lambda([r], z3.If(keep, z3.Select(base, r), z3.Select(hav, r)))
     for g in modG:
         st.ghost[g] = V.fresh("GL_" + g, ex.env.trusted.ghost_sort(g))
     return st
@@ -108,11 +116,18 @@ def oblige(ex, st, kind, label, goal, extra=None):
 
 def loop_frame(ex, s, entry, head, modH, mutates, ordinal):
     """an iteration does not write the havocked fields on objects that existed at loop entry"""
+    objmut = {}
+    for m_ in mutates:
+        if isinstance(m_, tuple):
+            objmut.setdefault(m_[0], []).append(m_[1])
     for f in sorted(modH):
         if f in mutates or f.startswith("?"):
             continue
         r = z3.Int("r!lf")
-        goal = z3.Implies(z3.And(r < entry.aptr, r >= 0), z3.Select(s.field_arr(f), r) == z3.Select(head.field_arr(f), r))
+        pre = [r < entry.aptr, r >= 0]
+        for objfn in objmut.get(f, []):
+            pre.append(r != Val.ref(objfn(LoopCtx(ex, entry, entry, None, None, None))))
+        goal = z3.Implies(z3.And(*pre), z3.Select(s.field_arr(f), r) == z3.Select(head.field_arr(f), r))
         oblige(ex, s, "inv-frame", "%s#%d" % (f, ordinal), goal)
 
 
